@@ -120,6 +120,8 @@ def gen_case(seed):
         'tokens': r.chance(35), 'stepviewer': r.chance(40), 'extreme': r.chance(20),
         'replace': r.chance(8), 'inplace': r.chance(8),
     }
+    # (own stream: the cases of earlier seeds keep their shape)
+    del_party = Rng(derive(seed, 'del_party')).chance(25)
     names = ['n'] + r.sample([v for v in VAR_MENU if v not in ('n', 't')], r.rint(1, 5))
     if swarm['steps']:
         names.append('t')
@@ -181,6 +183,8 @@ def gen_case(seed):
             menu += [['del', rr.below(4)]] * 2 + [['multi_del', rr.below(4), rr.below(4)]]
         if swarm['delpath']:
             menu += [['delpath', rr.below(4)]]
+        if del_party:
+            menu += [['del_party', rr.below(4), rr.below(6)]] * 2
         if swarm['gen']:
             menu += [['gen', rr.pick(['cellA', 'cellB']), _state_for(rr, cellvars)]] * 2
         if swarm['div']:
@@ -372,6 +376,21 @@ def published(eng):
             out['store_' + key] = mark(getattr(eng.state, getter)() or {})
         except Exception as e:
             out['store_' + key] = 'ERR %r' % (e,)
+    # every branch node of the hierarchy (for: no published compartment without a store)
+    nodes = []
+
+    def walk(store, path):
+        nodes.append(list(path))
+        for k, sub in (store.inner or {}).items():
+            if sub.inner:
+                walk(sub, path + (k,))
+            else:
+                nodes.append(list(path + (k,)))
+    try:
+        walk(eng.state, ())
+    except Exception:
+        nodes = None
+    out['nodes'] = nodes
     return out
 
 
@@ -523,6 +542,7 @@ class HModel:
         self.known_hits = {}
         self.moved, self.created, self.deleted, self.divided, self.tuple_deletes = [], [], [], [], []
         self.replaced = []
+        self.party_deleted = []
         self.tokens = copy.deepcopy(case.get('tokens')) if case.get('tokens') is not None else None
         for s in STORES:
             for key, tname, state in case['init_cells'].get(s, []):
@@ -665,6 +685,14 @@ class HModel:
                     continue
                 for var, x in (val.get('vars') or {}).items():
                     self.apply_value(here[key], var, x)
+                for name in val.get('_delete', []) or []:
+                    # a party (or the sub-compartment of the nested ones) leaves the cell
+                    cell = here[key]
+                    gone = [pk for pk in cell.parties if pk[0] == name]
+                    for pk in gone:
+                        del cell.parties[pk]
+                    if gone:
+                        self.party_deleted.append((store, key, name))
             for entry in u.get('_delete', []) or []:
                 if isinstance(entry, (list, tuple)):
                     # known finding C09-delete-tuple-path: the documented path form
@@ -1191,8 +1219,14 @@ def _check(case, run, stats):
                 n_created = len(m.created)
                 n_moved = len(m.moved)
                 n_replaced = len(m.replaced)
+                n_pd = len(m.party_deleted)
                 fp_before = set(footprint)
                 res = m.apply_actor_update(update, footprint)
+                if len(m.party_deleted) > n_pd:
+                    probe('party-deleted-from-cell')
+                    if any(not m.stores[st_][key_].parties for (st_, key_, _) in m.party_deleted[n_pd:]
+                           if key_ in m.stores[st_]):
+                        probe('cell-left-without-parties')
                 batch['struct'] |= (set(footprint) - fp_before) | set(
                     f for f in footprint if any(kk in str(update) for kk in ('_delete', '_divide', '_move')))
                 for st_ in STORES:
@@ -1365,10 +1399,38 @@ def check_published(case, run):
         if pt != st:
             return [V('C10', 'C10.published', 'topology',
                       'after op %d the engine publishes topology %r, the hierarchy holds %r' % (i, pt, st))]
+        if pub.get('nodes') is not None:
+            have = set(tuple(n) for n in pub['nodes'])
+            for key in ('processes', 'steps', 'topology'):
+                stale = _stale_branches(pub['pub_' + key], have, key == 'topology')
+                if stale:
+                    return [V('C10', 'C10.published', 'stale-compartment',
+                              'after op %d the engine publishes %s with a compartment %r that the hierarchy '
+                              'does not hold' % (i, key, stale[0]))]
         if alias is False:
             return [V('C10', 'C10.published', 'composite-not-updated',
                       'after op %d the Composite the engine was built from no longer aliases what it publishes' % i)]
     return []
+
+
+def _stale_branches(tree, have, empties_only, path=()):
+    """Paths of (possibly empty) dictionaries in a published tree that are no
+    store of the hierarchy.  In the processes and steps trees every dictionary
+    is a compartment; in the topology the dictionaries below a process name are
+    port wirings, so only empty dictionaries are looked at there."""
+    out = []
+    if not isinstance(tree, dict):
+        return out
+    for k, v in tree.items():
+        if not isinstance(v, dict):
+            continue
+        p = path + (k,)
+        if p not in have:
+            if not empties_only or not v:
+                out.append(p)
+            continue
+        out += _stale_branches(v, have, empties_only, p)
+    return out
 
 
 def _overlap(a, b, path=()):
